@@ -442,6 +442,15 @@ impl<'a> StringParser<'a> {
                 '}' => {
                     break;
                 }
+                '\\' if !self.kind.is_raw() => {
+                    self.next_char();
+                    if let Some('{' | '}') = self.peek() {
+                        constant_piece.push('\\');
+                    } else {
+                        constant_piece.push_str(&self.parse_escaped_char()?);
+                    }
+                    continue;
+                }
                 _ => {
                     constant_piece.push(next);
                 }
